@@ -33,6 +33,33 @@ def r1_writer_side(cx, classes):
         name = x.args[0].id if isinstance(x.args[0], ast.Name) else None
         texts = [U(a.value) for a in assigns_to(wr, name)] if name else [U(x.args[0])]
         ok = any("self._clean_content()" in t for t in texts) and all(("self._clean_content()" in t) or (name and name in t) for t in texts)
+        if not ok:
+            # def-use closure: every definition that can reach the written value is built from self._clean_content() and constants only
+            seen_, leaves, todo_ = set(), [], [x.args[0]]
+            while todo_ and len(seen_) < 40:
+                e_ = todo_.pop()
+                for n_ in ast.walk(e_):
+                    if isinstance(n_, ast.Name) and isinstance(n_.ctx, ast.Load) and n_.id not in ("six", "self", "str", "bytes"):
+                        if n_.id in seen_:
+                            continue
+                        seen_.add(n_.id)
+                        ds_ = assigns_to(wr, n_.id)
+                        if not ds_:
+                            leaves.append("name " + n_.id)
+                        for d_ in ds_:
+                            if isinstance(d_, ast.Assign):
+                                todo_.append(d_.value)
+                            else:
+                                leaves.append(short(d_))
+                    elif isinstance(n_, ast.Call):
+                        if U(n_) == "self._clean_content()":
+                            leaves.append("CLEAN")
+                        elif not (isinstance(n_.func, ast.Attribute) and n_.func.attr in ("join", "encode", "decode") and not U(n_.func.value).startswith("self")):
+                            leaves.append("call " + short(n_, 50))
+                    elif isinstance(n_, ast.Attribute) and isinstance(n_.value, ast.Name) and n_.value.id == "self" and not (isinstance(parent(n_), ast.Call) and parent(n_).func is n_ and n_.attr == "_clean_content"):
+                        leaves.append("attribute " + U(n_))
+            ok = "CLEAN" in leaves and all(l_ == "CLEAN" for l_ in leaves)
+            texts = texts + ["sources: %s" % sorted(set(leaves))]
         cx.require(ok, x, "the bytes written derive only from self._clean_content()", construct="%s <- %s" % (short(x), " ; ".join(texts)))
     for c in classes:
         for st in c.body:
@@ -215,6 +242,16 @@ def r2_pipeline(cx):
     for x in ups:
         for k in x.keywords:
             found[k.arg] = (U(k.value), set(guard_texts(x)))
+        # update({'ip': IPv4()})
+        for a_ in x.args:
+            if isinstance(a_, ast.Dict):
+                for kk, vv in zip(a_.keys, a_.values):
+                    if const_str(kk):
+                        found[const_str(kk)] = (U(vv), set(guard_texts(x)))
+    # self.obfuscate['ip'] = IPv4()
+    for a_ in walk_body(init.body):
+        if isinstance(a_, ast.Assign) and len(a_.targets) == 1 and isinstance(a_.targets[0], ast.Subscript) and U(a_.targets[0].value) == "self.obfuscate" and const_str(a_.targets[0].slice):
+            found[const_str(a_.targets[0].slice)] = (U(a_.value), set(guard_texts(a_)))
     for key, (ctor, opt) in table.items():
         if key not in found:
             cx.bad(init, "obfuscator '%s' is installed when its option is on" % key, construct="(no self.obfuscate.update(%s=...))" % key)
@@ -426,7 +463,16 @@ def r6_global_substitution(cx):
                 if hs and not others and isinstance(a.value, (ast.IfExp, ast.Name)):
                     viaq.add(a.targets[0].id)
         calls = [x for x in find_calls(lp.body) if call_name(x) in helpers or call_name(x) in viaq]
-        ok = bool(calls) and all(isinstance(stmt_of(x), ast.Assign) and U(stmt_of(x).targets[0]) == "line" for x in calls)
+        # the helper written out in the loop: new = self._X2db(tok); [if new:] line = line.replace(tok, new)   (skipped only for ignore-listed / already obfuscated tokens)
+        direct = [x for x in find_calls(lp.body, attr="replace") if U(x.func.value) == "line" and len(x.args) == 2 and not x.keywords and enclosing_function(x) is fn]
+        okd = True
+        for x in direct:
+            tok, new = U(x.args[0]), x.args[1]
+            nd = trace(new, fn) if isinstance(new, ast.Name) else new
+            okd = okd and isinstance(nd, ast.Call) and (call_attr(nd) or "").endswith("2db") and [U(a) for a in nd.args] == [tok] \
+                and all("_ignore_list" in t or (t == U(new) and pol) for t, pol in guard_texts(x, stop=lp))
+        calls = calls + direct
+        ok = bool(calls) and okd and all(isinstance(stmt_of(x), ast.Assign) and U(stmt_of(x).targets[0]) == "line" for x in calls)
         cx.require(ok, calls[0] if calls else lp, "%s: the substituted line is carried to the next match" % q, construct=short(stmt_of(calls[0])) if calls else "(no substitution call)")
     # findall source
     ipm = cx.repo.module("insights.cleaner.ip")
